@@ -351,6 +351,24 @@ class Prov:
         finally:
             self._stack.pop()
 
+    def _mutations(self, name):
+        cache = self.__dict__.setdefault('_mut', {})
+        if name in cache:
+            return cache[name]
+        cache[name] = set()         # (a collection that is put into itself)
+        out = set()
+        for x in ast.walk(self.defs.fn):
+            if isinstance(x, ast.Call) and isinstance(x.func, ast.Attribute) and isinstance(x.func.value, ast.Name) and x.func.value.id == name and \
+                    x.func.attr in ('append', 'extend', 'insert', 'add', 'update', 'setdefault', 'appendleft', 'extendleft'):
+                for a in list(x.args) + [k.value for k in x.keywords]:
+                    out |= self.of(a)
+            elif isinstance(x, ast.Assign) and any(isinstance(t, ast.Subscript) and isinstance(t.value, ast.Name) and t.value.id == name for t in x.targets):
+                out |= self.of(x.value)
+            elif isinstance(x, ast.AugAssign) and isinstance(x.target, ast.Name) and x.target.id == name:
+                out |= self.of(x.value)
+        cache[name] = out
+        return out
+
     def _lookup(self, d):
         parts = d.split('.')
         for i in range(len(parts), 0, -1):
@@ -374,6 +392,10 @@ class Prov:
                         out |= self._lambda_param(v, d)
                     else:
                         out |= self.of(v)
+                # what is put into a local collection afterwards is part of what it holds: name.append(x) / extend / insert / add /
+                # update / setdefault, name[k] = x, name += x
+                if isinstance(e, ast.Name):
+                    out |= self._mutations(d)
                 return out
             if d in self.defs.params:
                 return {'PARAM:' + d}
